@@ -4,7 +4,7 @@ from __future__ import annotations
 
 import ast
 
-from sa.cfg import all_paths_pass, dominators, find_path, fmt_path, reachable, reaches, specialize
+from sa.cfg import all_paths_pass, dominators, find_path, fmt_path, reachable, reaches, specialize, test_atoms
 from sa.db import AnalysisError, FuncInfo, dotted, src, walk_local
 from sa.flow import defs_reaching, reaching_defs
 from sa.model import contains, enclosing, execute_impl_funcs, is_user_func_call, superstep_funcs
@@ -20,6 +20,7 @@ EXPLANATION = (
     "limiter is installed (gate routing functions are exempt: construction rejects async/generator routing functions, checked); (R3) every "
     "Semaphore construction is guarded by 'no limiter installed in this context', so one limiter governs the whole call tree; (R4) every installed "
     "limiter token is reset on all exits (finally); (R5) the limiter is installed before map item tasks are created, so they inherit it. (R6) the bounded map restores input order exactly like the unbounded one (index and result appended as an atomic pair after the item finished, results sorted by index) — 'same result as the unlimited run'. (R7) the limit never decides which ready nodes belong to a superstep: the list handed to the superstep is exactly the scheduler's result."
+    " R3 also requires that no code path is selected by a particular value of the limit (it is tested for presence and sizes the limiter only)."
 )
 NOT_DECIDED = "Equality with the unlimited run and fairness/starvation of the asyncio scheduler; that sync routing functions (which take no permit) are counted by an observer as executing bodies."
 
@@ -369,9 +370,15 @@ def run(ctx) -> None:
             rep.add("C15.R4", f"{f.qname}:set-reset", ok, f"{f.module.rel}:{c.lineno}", why)
         # R5 (map): install before creating/gathering item tasks
         if f.name == "map":
-            val5 = {"max_concurrency is None": False}
+            val5 = {"max_concurrency is None": False, "max_concurrency is not None": True}
             for lv in _limiter_locals(db, f):
                 val5[f"{lv} is None"] = True
+            # the same test written on the getter's result directly (no local in between)
+            for t in cfg.nodes:
+                if t.kind == "test" and t.ast is not None:
+                    for a in test_atoms(t.ast):
+                        if isinstance(a, ast.Compare) and len(a.ops) == 1 and isinstance(a.ops[0], (ast.Is, ast.IsNot)) and isinstance(a.left, ast.Call) and call_names(db, a.left, f) & LIMITER_GETTERS and isinstance(a.comparators[0], ast.Constant) and a.comparators[0].value is None:
+                            val5[src(a)] = isinstance(a.ops[0], ast.Is)
             dom = dominators(cfg.entry, specialize(val5))
             setn = {n for c in sets for n in cfg.node_containing(c)}
             spawn = [n for n in cfg.nodes if any(dotted(c.func) in ("asyncio.gather", "asyncio.create_task", "asyncio.ensure_future") for c in cfg.calls_at(n))]
